@@ -18,8 +18,8 @@ RULE = (
     "as ndarray/Index/list, user Aggregation objects and registry Aggregation objects passed as func); steps = eager / "
     "chunked groupby_reduce with arbitrary kwargs, groupby_scan, xarray_reduce, rechunk_for_blockwise / rechunk_for_cohorts "
     "(array and xarray flavours), find_group_cohorts. Invariants after every step: content digests of all pooled objects "
-    "unchanged; structural snapshot of flox.aggregations.AGGREGATIONS unchanged. At the end the last step and a drawn "
-    "earlier one are evaluated FIRST IN A FRESH PROCESS (forked from a pristine 'import flox' server) and must equal what "
+    "unchanged; structural snapshot of flox.aggregations.AGGREGATIONS unchanged. At the end every step (histories > 8 steps: the last and 6 drawn ones) "
+    "is evaluated FIRST IN A FRESH PROCESS (forked from a pristine 'import flox' server) and must equal what "
     "the long-lived process returned; two drawn steps are also re-run in-process. (cocompute) a chunked base call plus "
     "1-2 variants differing in exactly one ingredient from {values, labels, reduction, ddof, q, min_count, fill_value, "
     "dtype, method, engine, sort} (also pairs of scans): dask.compute(r1, r2[, r3]) in both orders == each computed alone. "
@@ -53,8 +53,14 @@ def histories(draw, tier="quick"):
     runs = sorted(codes)
     # a second sequential label array of the same shape/dtype (and same last label) but other run borders:
     # a cache keyed on shape instead of content would serve a stale plan
-    cut = draw(st.integers(1, n - 1))
-    runs2 = [0] * cut + [max(runs)] * (n - cut)
+    runs2 = list(runs)
+    bnds = [i for i in range(1, n) if runs[i] != runs[i - 1]]
+    if bnds:
+        b = draw(st.sampled_from(bnds))
+        if b + 1 < n and runs[b + 1] == runs[b]:
+            runs2[b] = runs[b - 1]  # the group border moves one element to the right
+        elif b - 2 >= 0 and runs[b - 2] == runs[b - 1]:
+            runs2[b - 1] = runs[b]  # ... or to the left
     labels = [{"dt": "<i8", "sh": [n], "v": codes}, {"dt": "<i8", "sh": [n], "v": codes2}, {"dt": "<i8", "sh": [n], "v": runs},
               {"dt": "<i8", "sh": [n], "v": runs2}]
     present = sorted(set(codes))
@@ -63,19 +69,34 @@ def histories(draw, tier="quick"):
         {"labels": present + [7], "as": "index"},
         {"labels": list(reversed(present)) + [9], "as": "list"},
     ]
-    maxsteps = 8 if tier == "quick" else 20
+    maxsteps = 6 if tier == "quick" else 18
     nsteps = draw(st.integers(2, maxsteps))
-    steps = [draw(step(n, len(arrays))) for _ in range(nsteps)]
+    chunkings = [gen.draw_chunks(draw, n, max_blocks=6), gen.draw_chunks(draw, n, max_blocks=6)]
+    steps = [draw(step(n, len(arrays), chunkings)) for _ in range(nsteps)]
+    # explicit cache-poisoning probe: the same helper / plan twice with equal chunks and equal label shape/dtype but
+    # different label content, the old chunk border sitting next to the moved group border
+    if bnds and draw(st.integers(0, 2)) == 0:
+        cb = min(max(1, b + draw(st.sampled_from([-1, 0, 1]))), n - 1)
+        probe_chunks = [cb, n - cb]
+        kind = draw(st.sampled_from(["rechunk_blockwise", "rechunk_blockwise", "reduce"]))
+        first, second = draw(st.sampled_from([(2, 3), (3, 2)]))
+        for byi in (first, second):
+            if kind == "reduce":
+                steps.append({"op": "reduce", "arr": 0, "by": byi, "chunks": probe_chunks, "func": draw(st.sampled_from(["sum", "first", "nanmax"])),
+                              "expected": None, "sort": None, "ddof": None, "method": "blockwise", "engine": None})
+            else:
+                steps.append({"op": "rechunk_blockwise", "arr": 0, "by": byi, "chunks": probe_chunks, "xr": draw(st.booleans())})
     return {"kind": "history", "n": n, "arrays": arrays, "labels": labels, "expected": expected, "steps": steps,
             "fresh_pick": draw(st.integers(0, 10**6))}  # fmt: skip
 
 
 @st.composite
-def step(draw, n, narr):
-    op = draw(st.sampled_from(["reduce"] * 6 + ["scan", "scan", "rechunk_blockwise", "rechunk_cohorts", "xarray", "xarray", "cohorts_planner"]))
+def step(draw, n, narr, chunkings):
+    op = draw(st.sampled_from(["reduce"] * 6 + ["scan", "scan", "rechunk_blockwise", "rechunk_blockwise", "rechunk_cohorts", "xarray", "xarray", "cohorts_planner"]))
     s = {"op": op, "arr": draw(st.integers(0, narr - 1)), "by": draw(st.integers(0, 3))}
     chunked = draw(st.booleans())
-    s["chunks"] = gen.draw_chunks(draw, n, max_blocks=6) if (chunked or op.startswith("rechunk") or op == "cohorts_planner") else None
+    # chunkings are pooled too, so that later calls repeat earlier (chunks, shape) combinations with other label content
+    s["chunks"] = draw(st.sampled_from(chunkings)) if (chunked or op.startswith("rechunk") or op == "cohorts_planner") else None
     if op == "reduce":
         f = draw(st.integers(0, 9))
         if f == 0:
@@ -373,7 +394,8 @@ def exec_history(case, out):
             out.add(("history-dependent", "in-process", steps[idx]["op"]), f"step {idx} ({steps[idx]}) gave {brief(results[idx])} when first run but "
                     f"{brief(again)} at the end of the history")  # fmt: skip
     # fresh-process oracle
-    for idx in sorted({len(steps) - 1, (pick // 7) % len(steps)}):
+    fresh_idx = set(range(len(steps))) if len(steps) <= 8 else {len(steps) - 1} | {(pick // (7 + k)) % len(steps) for k in range(6)}
+    for idx in sorted(fresh_idx):
         fresh = fresh_call("fv.props.c14", "fresh_eval", case, idx)
         out.label("fresh-eval")
         if not same(fresh, results[idx]):
